@@ -420,6 +420,7 @@ func runC11(c *Ctx) {
 			runChunkSeq(c, r, limit, n)
 		}()
 	})
+	runC11S3(c) // extension round s3: c11_s3.go
 	_ = io.EOF
 }
 
